@@ -110,6 +110,8 @@ def safe_run_case(prop, fam, case):
 
 
 _WORKER_HISTORY = []   # (family, block) pairs this process has run, in order
+_WORKER_TIMEOUTS = [0]  # cases of this process that ran into the time limit
+TIMEOUTS_PER_WORKER = 3  # a run that keeps hanging has failed already: the worker skips its remaining cases (reported)
 
 
 def _run_block(args):
@@ -123,9 +125,15 @@ def _run_block(args):
     outcomes = set()
     viols = {}
     samples = []
+    skipped = 0
     try:
         for case in fam.cases(block, tier):
+            if _WORKER_TIMEOUTS[0] >= TIMEOUTS_PER_WORKER:
+                skipped += 1
+                continue
             outcome, vs, st = safe_run_case(prop, fam, case)
+            if outcome == 'timeout':
+                _WORKER_TIMEOUTS[0] += 1
             n += 1
             if isinstance(st, tuple):  # (implementation calls, states explored inside this case by a nested search)
                 st, inner = st
@@ -145,7 +153,7 @@ def _run_block(args):
     except Exception:
         return {'error': 'family %s block %r: %s' % (famname, block, traceback.format_exc())}
     return {'family': famname, 'n': n, 'steps': steps, 'states': len(casehashes) + extra_states, 'outcomes': outcomes,
-            'viols': viols, 'samples': samples, 'wall': time.time() - t0}
+            'viols': viols, 'samples': samples, 'wall': time.time() - t0, 'skipped': skipped}
 
 
 def _short(o, limit=400):
@@ -211,6 +219,7 @@ def run_check(prop, tier, seed, only=None, jobs=None):
             tot['n'] += r['n']
             tot['steps'] += r['steps']
             tot['states'] += r['states']
+            tot['skipped'] = tot.get('skipped', 0) + r.get('skipped', 0)
             if len(outcomes) < OUTCOME_CAP:
                 outcomes |= r['outcomes']
             for sig, v in r['viols'].items():
@@ -266,6 +275,9 @@ def run_check(prop, tier, seed, only=None, jobs=None):
         out_lines.append('  signature: %s' % sig)
         out_lines.append('  detail: %s' % _short(viols[sig]['detail'], 600))
 
+    if tot.get('skipped'):
+        out_lines.append('NOTE: exploration cut short - %d case(s) skipped by workers that had met the time limit %d times' % (
+            tot['skipped'], TIMEOUTS_PER_WORKER))
     wall = time.time() - t0
     describe = '; '.join('%s: %s' % (f.name, getattr(f, 'describe', '')) for f in fams)
     evidence = {
@@ -283,7 +295,8 @@ def run_check(prop, tier, seed, only=None, jobs=None):
             'rule': ('states = distinct enumerated cases (hash of the case descriptor, per block); '
                      'transitions = calls into the implementation; distinct_nontrivial = distinct canonical '
                      'observations (outcome hashes) over all cases. ' + describe)[:6000],
-            'exhaustive': True,
+            'exhaustive': not tot.get('skipped'),
+            'cases_skipped_after_repeated_time_limits': tot.get('skipped', 0),
             'bounds': getattr(mod, 'BOUNDS', {}).get(tier, ''),
             'families': perfam,
             'samples': [samples[k] for k in sorted(samples)][:12],
